@@ -126,6 +126,16 @@ def handcrafted():
          [it("PUSH", "0", modifierDepth=2), it("MSTORE", modifierDepth=1), it("PUSH [tag]", "1", modifierDepth=1), it("JUMP", None, jumpType="[out]", modifierDepth=1)]
     docs_.append(("handmod.json_solc", {"contracts": {"m.sol:M": {"asm": {".code": md, ".data": {"0": {".auxdata": "a2", ".code": list(md)}}}}},
                                         "version": "0.8.15+commit.e14f2714"}))
+    # items the compiler generated itself carry no source location (-1/-1/-1): split instructions, tags, jumps and terminals of that kind
+    # around sub-blocks that the optimizer does change
+    nl = lambda n, v=None, **kw: dict({"begin": -1, "end": -1, "name": n, "source": -1}, **({"value": v} if v is not None else {}), **kw)
+    loc = lambda n, v=None, b=30, **kw: dict({"begin": b, "end": b + 10, "name": n, "source": 0}, **({"value": v} if v is not None else {}), **kw)
+    fold = lambda b: [loc("PUSH", "1", b), loc("PUSH", "2", b + 1), loc("ADD", None, b + 2), loc("PUSH", "80", b + 3), loc("MSTORE", None, b + 4)]
+    code = [nl("tag", "1"), nl("JUMPDEST")] + fold(10) + [loc("PUSH", "20"), loc("PUSH", "40"), loc("PUSH", "60"), nl("LOG1")] + fold(50) + \
+           [loc("PUSH", "0"), loc("PUSH", "0"), loc("PUSH", "4"), nl("CALLDATACOPY")] + fold(90) + [nl("GAS"), loc("POP")] + fold(130) + \
+           [nl("PUSH [tag]", "2"), nl("JUMP", None, jumpType="[in]"), nl("tag", "2"), nl("JUMPDEST")] + fold(170) + [nl("STOP")]
+    docs_.append(("handnoloc.json_solc", {"contracts": {"n.sol:N": {"asm": {".code": code, ".data": {"0": {".auxdata": "a3", ".code": [dict(i) for i in code]}}}}},
+                                          "version": "0.8.15+commit.e14f2714"}))
     return docs_
 
 
